@@ -2473,11 +2473,12 @@ impl TreeState {
                         .await?;
                 process_diff_entry(path, conflict, materialized).await?;
             }
-
-            // We need to re-sort the changed file states since we may have inserted a
-            // conflicted file out of order.
-            changed_file_states.sort_unstable_by(|(path1, _), (path2, _)| path1.cmp(path2));
         }
+
+        // We need to re-sort the changed file states since we may have inserted a
+        // conflicted file out of order, and skipped paths are recorded in diff order,
+        // in which the contents of a directory come before a file replacing it.
+        changed_file_states.sort_unstable_by(|(path1, _), (path2, _)| path1.cmp(path2));
 
         self.file_states
             .merge_in(changed_file_states, &deleted_files);
